@@ -73,7 +73,7 @@ theorem bubble_count (right : Bool) (o : Tree) (x : Task) (c : Tree × Bool) (a 
   | false => cases right <;> simp [bubble, Tree.elems, List.count_cons, List.count_append] <;> omega
   | true =>
     cases ct with
-    | nil => cases right <;> simp [bubble, Tree.elems, List.count_cons, List.count_append]
+    | nil => cases right <;> simp [bubble, Tree.elems, List.count_cons]
     | node cl e cr =>
       simp only [bubble]
       split <;> cases right <;> simp [Tree.elems, List.count_cons, List.count_append] <;> omega
